@@ -18,8 +18,8 @@ CLAIMED = {
     technique='TLA+ spec of operator embedding and of the Circuit state machine over Z[w]; TLC exhaustive configuration enumeration + simulation; behaviours replayed step by step into the code'),
  'C04': dict(
     cat='model_checking', ref='6/C04',
-    text='Circuit losses L = Re<phi|U(theta)|0> are differentiated exactly in the specification by the product rule in FORWARD mode over Z[w] (no reverse sweep in the spec; derivative matrices of rx/ry/rz/rzz/u3 and their controlled forms written out, controlled derivative = zero off the control subspace; the formulas are self-checked in TLC by the exact shift rule dL/dtheta = [L(theta+pi)-L(theta-pi)]/4). TLC simulates random parametrised circuits with plain, controlled, shared (same gate object re-appended) and placeholder parameter cells; each behaviour is built as a real Circuit/CircuitTorchWrapper model, backward() is run and every .grad entry and the flat gradient of hf_model_wrapper are compared with the exact values. The Knill-Laflamme inner product (forward and hand-written backward) is compared with the formal derivative of the sesquilinear form computed by TLC on Gaussian-integer code words.',
-    note='Angles on the pi/2 grid (phases pi/4). NOT covered: Pade logm backward, PSD sqrt backward, losses of the variational models, a trigonometric derivative error that vanishes on the grid. Tolerance 1e-9.',
+    text='Circuit losses L = Re<phi|U(theta)|0> are differentiated exactly in the specification by the product rule in FORWARD mode over Z[w] (no reverse sweep in the spec; derivative matrices of rx/ry/rz/rzz/u3 and their controlled forms written out, controlled derivative = zero off the control subspace; the formulas are self-checked in TLC by the exact shift rule dL/dtheta = [L(theta+pi)-L(theta-pi)]/4). TLC simulates random parametrised circuits with plain, controlled, shared (same gate object re-appended) and placeholder parameter cells; each behaviour is built as a real Circuit/CircuitTorchWrapper model, backward() is run and every .grad entry and the flat gradient of hf_model_wrapper are compared with the exact values. The Knill-Laflamme inner product (forward and hand-written backward) is compared with the formal derivative of the sesquilinear form computed by TLC on Gaussian-integer code words. The PSD matrix square root and the repeated root used by the Pade logarithm are checked on a rational family A = Q diag(t^(2^r)) Q^T (Pythagorean Givens rotations, degenerate spectra included): TLC proves root^(2^r) = A and that the exact gradient satisfies the Sylvester equation(s), and forward/backward of PSDMatrixSqrtm / _PSDMatrixSqrtmRepeat (single and batched) are compared with it.',
+    note='Angles on the pi/2 grid (phases pi/4). NOT covered: Pade logm backward as a whole (its repeated-sqrt block is covered), singular PSD inputs, losses of the variational models, a trigonometric derivative error that vanishes on the grid. Tolerance 1e-9.',
     technique='TLA+ forward-mode derivative spec over Z[w] + TLC simulation of parametrised circuits; behaviours replayed into torch autograd and compared'),
  'C05': dict(
     cat='model_checking', ref='6/C05',
